@@ -52,6 +52,7 @@ type State struct {
 	objHavocT []types.Type // static types of the havocked objects (parallel to objHavoc)
 	objHavoc []string // objects whose every field was havocked (modifies `object x`): applies to field arrays touched later too
 	escaped map[types.Object]string // struct-typed locals whose address was taken: they live in the heap at this reference
+	loopEntry map[int]*State // per loop ordinal: the state in which the loop was first reached
 	entryLen int  // number of path-condition conjuncts that describe the entry state (requires, repinv, axioms)
 }
 
@@ -83,6 +84,12 @@ func (st *State) clone() *State {
 	n.loopSeen = make(map[int]string, len(st.loopSeen))
 	for k, v := range st.loopSeen {
 		n.loopSeen[k] = v
+	}
+	if len(st.loopEntry) > 0 {
+		n.loopEntry = make(map[int]*State, len(st.loopEntry))
+		for k, v := range st.loopEntry {
+			n.loopEntry[k] = v
+		}
 	}
 	n.objHavoc = append([]string(nil), st.objHavoc...)
 	n.objHavocT = append([]types.Type(nil), st.objHavocT...)
